@@ -414,10 +414,17 @@ class World(object):
                 src_sim.outputs.setdefault(
                     -int(time_shifted), {}
                 ).setdefault(src.eid, {})[src_attr] = initial_data
-            else:
+            elif src.is_persistent(src_attr):
                 dest_sim.persistent_inputs.setdefault(
                     dest.eid, {}
                 ).setdefault(dest_attr, {})[src.full_id] = initial_data
+            else:
+                # Initial data for an event (non-persistent) output is
+                # an event, too: it is delivered once, with the first
+                # step, and must not turn the input into a persistent one.
+                dest_sim.timed_input_buffer.add(
+                    0, src.sid, src.eid, dest.eid, dest_attr, initial_data
+                )
 
         self.entity_graph.add_edge(src.full_id, dest.full_id)
 
